@@ -368,6 +368,34 @@ def check(P: Project, R: Report) -> None:
             R.ob("R2", "initialize returns the created session id", ".create_session(" in d, f"{ih.module.rel}:{node.lineno}", f"second element `{sid}` defined by `{d[:80]}`")
     R.ob("R2", "initialize handler has no silent exit", not io.normal, ih.where, "falls off the end")
 
+    # ------------------------------------------------------------------ R7: being heard from is activity, whatever the message is
+    R.rule("R7", "a message dispatched with a session id counts as activity of that session: on every path of the dispatcher that hands a message to a registered handler under a truthy session id, update_activity(session_id) has been called first — requests and notifications alike (a stale stamp lets expiry remove a session that was heard from within the limit)")
+    hm7 = P.func(A.MOD_HANDLER, "ProtocolHandler.handle_message")
+    R.fn(hm7.fq)
+    sid_p = [p_ for p_ in hm7.positional_params() if p_ != "self"]
+    R.need(len(sid_p) >= 2, "anchor: handle_message lost its session id parameter")
+    sid_p = sid_p[1]
+
+    def ev7(call, st, an):
+        nm = call_name(call)
+        if nm.endswith(".update_activity") and call.args and subst_text(call.args[0], st) == sid_p:
+            return "stamp"
+        if isinstance(call.func, ast.Name):
+            t_ = st.term(call.func.id) or call.func.id
+            d_ = an.defs.get(t_, ("", None))[0]
+            if "_handlers" in d_ or "_handlers" in t_:
+                return "invoke:" + ("stamped" if "stamp" in st.events else "stale") + ":" + ("nosid" if (f"not {sid_p}" in st.lits or f"{sid_p} is None" in st.lits) else "sid")
+        return None
+
+    a7, o7 = run_paths(hm7.node, event_of=ev7, fallible=False)
+    ends7 = [st for st, _n in o7.ret] + list(o7.normal)
+    inv7 = [e for st in ends7 for e in st.events if e.startswith("invoke:")]
+    R.need(inv7, "anchor: no path of handle_message invokes a registered handler")
+    stale7 = [st for st in ends7 if any(e == "invoke:stale:sid" for e in st.events)]
+    R.ob("R7", "every handler invocation under a session id follows update_activity(session_id)", not stale7, hm7.where,
+         f"a path invokes the handler under a truthy `{sid_p}` without having called update_activity (literals {sorted(l[:50] for l in stale7[0].lits)[:5] if stale7 else ''}): messages of that kind — notifications, typically — leave last_activity as it was, and cleanup_expired later removes a session that was heard from less than max_age ago",
+         sample=f"R7 {len(inv7)} invoking path(s), all stamped when a session id is given")
+
     # ------------------------------------------------------------------ R3
     g = need_m("get_session")
     an, out = effects(g)
